@@ -103,6 +103,10 @@ func (ctx *Context) Parse(value string) error {
 					err = errors.New("解析算力上限: " + errMaxExprCnt.Error())
 					return
 				}
+				if r == errMaxRuleDepth {
+					err = errors.New("表达式嵌套层数过多: " + errMaxRuleDepth.Error())
+					return
+				}
 				panic(r)
 			}
 		}()
